@@ -24,7 +24,23 @@ import (
 )
 
 const verifDir = "/verif"
-const repoDir = "/repo"
+// repoDir is the tree lal is built from. VERIF_REPO (used only for screening seeded changes in scratch
+// worktrees, never by the registered commands) points it elsewhere; outDir then receives work files,
+// evidence and replays instead of /verif.
+var repoDir = "/repo"
+var outDir = verifDir
+
+func init() {
+	if v := os.Getenv("VERIF_REPO"); v != "" {
+		repoDir = v
+		outDir = os.Getenv("VERIF_OUT")
+		if outDir == "" {
+			fmt.Fprintln(os.Stderr, "VERIF_REPO needs VERIF_OUT")
+			os.Exit(2)
+		}
+		_ = os.MkdirAll(outDir, 0o755)
+	}
+}
 const goBin = "go1.26.8"
 
 func goEnv() []string {
@@ -52,7 +68,9 @@ func run(dir string, env []string, name string, args ...string) (string, error) 
 
 // ensureTools builds simweave if missing (setup normally did it).
 func ensureTools() {
-	if _, err := os.Stat(filepath.Join(verifDir, "bin", "simweave")); err != nil {
+	bi, err := os.Stat(filepath.Join(verifDir, "bin", "simweave"))
+	si, _ := os.Stat(filepath.Join(verifDir, "tools", "simweave", "main.go"))
+	if err != nil || (si != nil && si.ModTime().After(bi.ModTime())) {
 		out, err := run(filepath.Join(verifDir, "tools", "simweave"), goEnv(), goBin, "build", "-o", filepath.Join(verifDir, "bin", "simweave"), ".")
 		if err != nil {
 			fatal2("building simweave failed: %v\n%s", err, out)
@@ -81,6 +99,15 @@ func build(workDir string, race bool) (bin string, weaveStats json.RawMessage) {
 	args := []string{"test", "-c", "-vet=off", "-overlay", filepath.Join(scratch, "overlay.json"), "-o", bin}
 	if race {
 		args = append(args, "-race")
+	}
+	if repoDir != "/repo" {
+		gm, _ := os.ReadFile(filepath.Join(verifDir, "go.mod"))
+		alt := strings.Replace(string(gm), "=> /repo", "=> "+repoDir, 1)
+		alt = strings.Replace(alt, "=> ./third_party/naza", "=> "+filepath.Join(verifDir, "third_party", "naza"), 1)
+		_ = os.WriteFile(filepath.Join(scratch, "go.mod"), []byte(alt), 0o644)
+		gs, _ := os.ReadFile(filepath.Join(verifDir, "go.sum"))
+		_ = os.WriteFile(filepath.Join(scratch, "go.sum"), gs, 0o644)
+		args = append(args, "-modfile="+filepath.Join(scratch, "go.mod"))
 	}
 	args = append(args, "./simtest/")
 	out, err = run(verifDir, goEnv(), goBin, args...)
@@ -371,7 +398,7 @@ func cmdCheck(args []string) int {
 		fatal2("bad tier %q", *tier)
 	}
 	t0 := time.Now()
-	workDir := filepath.Join(verifDir, "work", prop+"-"+*tier)
+	workDir := filepath.Join(outDir, "work", prop+"-"+*tier)
 	_ = os.RemoveAll(workDir)
 	bin, weaveStats := build(workDir, *race)
 	buildS := time.Since(t0).Seconds()
@@ -595,7 +622,8 @@ func toolchain() string {
 
 func replayPath(prop string, seed uint64, idx int, rule string) string {
 	safe := regexp.MustCompile(`[^A-Za-z0-9_.-]`).ReplaceAllString(rule, "_")
-	return filepath.Join(verifDir, "replays", fmt.Sprintf("%s-%s-seed%d-idx%d.json", prop, safe, seed, idx))
+	_ = os.MkdirAll(filepath.Join(outDir, "replays"), 0o755)
+	return filepath.Join(outDir, "replays", fmt.Sprintf("%s-%s-seed%d-idx%d.json", prop, safe, seed, idx))
 }
 
 func writeCrashReplay(bin, prop, tier string, seed uint64, idx int, v *Violation, log string) string {
@@ -821,8 +849,8 @@ func writeEvidence(prop, tier string, seed uint64, recs []RunRecord, nViol, abor
 		},
 	}
 	b, _ := json.MarshalIndent(ev, "", " ")
-	_ = os.MkdirAll(filepath.Join(verifDir, "evidence"), 0o755)
-	if err := os.WriteFile(filepath.Join(verifDir, "evidence", prop+".json"), b, 0o644); err != nil {
+	_ = os.MkdirAll(filepath.Join(outDir, "evidence"), 0o755)
+	if err := os.WriteFile(filepath.Join(outDir, "evidence", prop+".json"), b, 0o644); err != nil {
 		fatal2("%v", err)
 	}
 }
